@@ -210,6 +210,41 @@ def call_impl(var, vals, lib, scalar_shape="float"):
     if var["suffix"] == "_s":
         # scalar variant of Veq: call with python/0-d scalars
         args = [vals[p] if lib == "np" else cs.DM(vals[p]) for p in var["sig"]]
+    before = [a.copy() if isinstance(a, np.ndarray) else None for a in args]
+    with np.errstate(all="ignore"):
+        res = fn(*args)
+    for (p, _t), a, b in zip(var["sig"].items(), args, before):
+        if b is not None and not (a.shape == b.shape and np.array_equal(a, b, equal_nan=True)):
+            raise ArgumentModified(f"the {'NumPy' if lib == 'np' else 'CasADi'} primitive modified its argument {p} in place: "
+                                   f"{b.tolist()} -> {a.tolist()}")
+    return [float(x) for x in np.array(res, dtype=float).reshape(-1)]
+
+
+class ArgumentModified(Exception):
+    pass
+
+
+def call_stacked(var, stacked, lib):
+    """a scalar-signature primitive called with VECTORS (length > 1) for the quantities that come from element
+    variables (several ramps / operating points at once), numbers for the model parameters"""
+    import casadi as cs
+    from sym_metanet.engines import casadi as E_cs, numpy as E_np
+    mod = E_np if lib == "np" else E_cs
+    fn = getattr(getattr(mod, var["cls"]), var["name"])
+    args = []
+    for p, t in var["sig"].items():
+        if t in ("S", "OS"):
+            if p not in stacked:
+                args.append(None)
+            elif isinstance(stacked[p], list):
+                x = np.array(stacked[p], dtype=float)
+                args.append(x.copy() if lib == "np" else cs.DM(x))
+            else:
+                args.append(stacked[p])
+        elif t == "STR":
+            args.append(var["s"])
+        else:
+            raise RuntimeError("not a scalar-signature primitive")
     with np.errstate(all="ignore"):
         res = fn(*args)
     return [float(x) for x in np.array(res, dtype=float).reshape(-1)]
@@ -283,6 +318,28 @@ def run_primitives(ctx, points_per_variant, judge):
                             break
             for msg in judge(var, vals, got["np"], got["cs"], mvals):
                 failures.append(dict(rec, what=msg, key=f"prim:{label}", np=repr(got["np"]), cs=repr(got["cs"])))
+            # "scalar or vector": the laws written for one origin / destination / node entry, evaluated for three
+            # operating points at once, give element by element what three separate calls give (both engines)
+            if ctx.get("stacked") and k < 2 and var["suffix"] == "" and not any(t in ("V", "I") for t in var["sig"].values()) \
+                    and any(p in STATE_SCALARS for p in tokens(var)):
+                pts3 = [vals] + [sample_point(var, rng, mode) for _ in range(2)]
+                stacked = {p: ([q[p] for q in pts3] if p in STATE_SCALARS else vals[p]) for p in vals}
+                try:
+                    singles = []
+                    for j in range(3):
+                        one = {p: (stacked[p][j] if isinstance(stacked[p], list) else stacked[p]) for p in stacked}
+                        singles.append(call_impl(var, one, "np", "float")[0])
+                    for lib in ("np", "cs"):
+                        vec = call_stacked(var, stacked, lib)
+                        evals += 1
+                        scale = max([abs(x) for x in singles if math.isfinite(x)] + [1.0])
+                        if len(vec) != 3 or any(not tree.close(a, b, scale) for a, b in zip(vec, singles)):
+                            failures.append(dict(rec, what=f"{'numpy' if lib == 'np' else 'casadi'} with vector arguments returns {vec}, "
+                                                           f"three separate scalar calls give {singles}", key=f"prim-vector:{label}",
+                                                 stacked=stacked))
+                            break
+                except Exception as e:
+                    failures.append(dict(rec, what=f"vector arguments raised {e!r:.200}", key=f"prim-vector:{label}", stacked=stacked))
             if len(samples) < 4 and k == 1:
                 samples.append(dict(rec, np=repr(got["np"])[:200], cs=repr(got["cs"])[:200]))
     cov = {"evaluations": evals, "distinct_nontrivial": len(distinct),
@@ -315,7 +372,7 @@ def judge_C15(var, vals, npv, csv, mvals):
 
 def run_C15(ctx):
     n = 6 if ctx["tier"] == "quick" else 60
-    return run_primitives(ctx, n, judge_C15)
+    return run_primitives(dict(ctx, stacked=True), n, judge_C15)
 
 
 def replay(failure):
